@@ -372,3 +372,25 @@ Definition runner_next (ret : option Z) (now : Z) : Z :=
   | None => now + 500                                   (* nothing pending: poll again in 500 ms, never park *)
   | Some t => now + (if t - now <? 50 then 50 else t - now)
   end.
+
+(* ---------- SCCRQ demultiplexing (dispatch.go dispatchSCCRQ) ----------
+   An SCCRQ cannot be looked up by our tunnel id (it carries none): the control connection is identified by the
+   peer's address and its Assigned Tunnel ID.  Per such key: never seen / a tunnel is registered / the tunnel was
+   torn down less than a retransmission cycle ago (RFC 2661 5.7 keeps the state that long). *)
+Inductive conn := CNone | CLive | CClosed.
+Inductive cev := CSccrq (* any copy of the SCCRQ *) | CTeardown (* StopCCN or dead *) | COther.
+(* returns the new state and whether the SCCRQ handler runs (a tunnel is opened, an SCCRP is produced);
+   [linger] = false is the rule without the closed-connection record *)
+Definition conn_step (linger : bool) (st : conn) (e : cev) : conn * bool :=
+  match e, st with
+  | CSccrq, CNone => (CLive, true)
+  | CSccrq, CLive => (CLive, false)            (* handed to the existing channel: a duplicate *)
+  | CSccrq, CClosed => if linger then (CClosed, false) else (CLive, true)
+  | CTeardown, CLive => (CClosed, false)
+  | _, _ => (st, false)
+  end.
+Fixpoint conn_opens (linger : bool) (st : conn) (evs : list cev) : nat :=
+  match evs with
+  | [] => O
+  | e :: r => let '(st', o) := conn_step linger st e in (if o then 1 else 0)%nat + conn_opens linger st' r
+  end.
